@@ -117,7 +117,7 @@ class C08(runner.Check):
                     vb2 = _shift(vb, 50)
                     want = values.strip(va) + values.strip(vb2)
                     for da, na in _two_encodings(Ta, va):
-                        for db, nb in _two_encodings(Tb, vb2):
+                        for db, nb in _two_encodings(Tb, vb2) + _permuted_fields(Tb, vb2):
                             st.states += 1
                             la, lb = layouts.build(da), layouts.build(db)
                             no += 1
@@ -163,7 +163,7 @@ class C08(runner.Check):
                                     self._v(st, "invalid-result", op, Ta, Tb, da, db, str(err))
                                     continue
                                 w = want if op != "reverse" else values.strip(vb2) + values.strip(va)
-                                if not layoutsem.same(got, w):
+                                if not layoutsem.same(_sortkeys(got), _sortkeys(w)):
                                     self._v(st, "value", op, Ta, Tb, da, db, "expected %r, got %r" % (w, got))
                                     continue
                                 if len(w) > 0:
@@ -387,6 +387,47 @@ def _shift(tv, delta):
     if isinstance(tv, bytes):
         return tv + b"Q"
     return tv
+
+
+def _sortkeys(v):
+    """Records compare by field name, not by the order in which the fields are stored."""
+    if isinstance(v, dict):
+        return {k: _sortkeys(v[k]) for k in sorted(v)}
+    if isinstance(v, list):
+        return [_sortkeys(x) for x in v]
+    if isinstance(v, tuple):
+        return tuple(_sortkeys(x) for x in v)
+    return v
+
+
+def _permute_desc(d):
+    if not isinstance(d, dict):
+        return d, False
+    out = dict(d)
+    changed = False
+    for k in ("content",):
+        if k in out:
+            out[k], c = _permute_desc(out[k])
+            changed = changed or c
+    if "contents" in out:
+        new = []
+        for c in out["contents"]:
+            c2, ch = _permute_desc(c)
+            new.append(c2)
+            changed = changed or ch
+        out["contents"] = new
+        if out["class"] == "RecordArray" and out.get("keys") and len(out["keys"]) > 1:
+            out["contents"] = out["contents"][::-1]
+            out["keys"] = list(out["keys"])[::-1]
+            changed = True
+    return out, changed
+
+
+def _permuted_fields(T, tvs):
+    """the canonical encoding with the fields of every named record stored in reverse order (same record type)"""
+    d, names = next(iter(encs.encodings(T, tvs, 1, False)))
+    d2, changed = _permute_desc(d)
+    return [(d2, ["record-fields-reversed"])] if changed else []
 
 
 def _two_encodings(T, tvs):
